@@ -170,6 +170,9 @@ func doResp(vraw string, st int, hs map[string]string, eb string) {
 	})
 }
 
+// withErrs: see flag -errs
+var withErrs bool
+
 type route struct {
 	pat, body string
 	errs      []int
@@ -200,7 +203,7 @@ func genRoutes(r *gen.Rng, uri string) []route {
 		if r.Intn(3) == 0 {
 			x.body = genStr(r, 1, 40, 25)
 		}
-		if r.Intn(8) == 0 {
+		if r.Intn(8) == 0 && withErrs {
 			x.errs = []int{[]int{404, 500, 200, 403, 301, 503}[r.Intn(6)]}
 		}
 		rt = append(rt, x)
@@ -644,7 +647,9 @@ func boundary() {
 	doRound(base(), "10.0.0.1", 80, nil)
 	doRound(base(), "10.0.0.1", 80, []route{{pat: "/", body: "root"}, {pat: "/xy", body: "longer"}, {pat: "x", body: "noslash"}})
 	doRound(base(), "10.0.0.1", 80, []route{{pat: "/x", body: ""}})
-	doRound(base(), "10.0.0.1", 80, []route{{pat: "/x", body: "b", errs: []int{404}}})
+	if withErrs {
+		doRound(base(), "10.0.0.1", 80, []route{{pat: "/x", body: "b", errs: []int{404}}})
+	}
 	for _, st := range []int{200, 404, 101, 299, 0, -7, 1000, 500, 511, 100} {
 		doResp("HTTP/1.1", st, map[string]string{"Server": "s", "Connection": "close"}, "the body\r\n: x")
 	}
